@@ -8,7 +8,7 @@
 //
 // attempt = comma separated fields, executed by the protected handler in this order:
 // r:all|r:N (read body), hs:K:V ha:K:V hd:K u:/path (mutate its request copy), rh:K:V (response
-// header), s:CODE, w:LEN.SEED ... (Write calls), hj (Hijack).  A view is what the handler saw on
+// header), s:CODE, w:LEN.SEED ... (Write calls), fl (Flush if the writer offers it), hj (Hijack).  A view is what the handler saw on
 // entry: method|url|X-headers|cl=|te=|oh=(other headers same as incoming)|rd=bytes read|tf=temp
 // files on disk when it returned.  w= is what Buffer sent to the ResponseWriter it was given, cl=
 // says whether the real client received exactly that, left= temp files remaining afterwards.
@@ -101,6 +101,7 @@ type attempt struct {
 	status  int // -1 none
 	writes  [][]byte
 	hijack  bool
+	flush   bool
 }
 
 func parseAttempt(s string) attempt {
@@ -111,6 +112,8 @@ func parseAttempt(s string) attempt {
 		case fld == "-":
 		case fld == "hj":
 			a.hijack = true
+		case fld == "fl":
+			a.flush = true
 		case p[0] == "r" && len(p) == 2:
 			if p[1] != "all" {
 				a.read = hx.Atoi(p[1])
@@ -149,6 +152,7 @@ type exchange struct {
 	body     []byte
 	hijacked bool
 	done     chan struct{}
+	token    string
 }
 
 type scen struct {
@@ -203,7 +207,15 @@ func (s *scen) tmpCount() int {
 
 // outer is what the HTTP server calls: it records the incoming request and hands Buffer a recording writer.
 func (s *scen) outer(w http.ResponseWriter, r *http.Request) {
+	s.mu.Lock()
 	ex := s.cur
+	s.mu.Unlock()
+	// ephemeral ports are reused across processes: a request that is not the one this exchange sent
+	// (another harness talking to a backend that used to own this port) is turned away untouched
+	if ex == nil || r.Header.Get("Hx-Token") != ex.token {
+		w.WriteHeader(http.StatusMisdirectedRequest)
+		return
+	}
 	defer close(ex.done)
 	ex.inHeader = r.Header.Clone()
 	base := rec{w: w, ex: ex}
@@ -259,6 +271,11 @@ func (s *scen) inner(w http.ResponseWriter, r *http.Request) {
 	for _, p := range a.writes {
 		_, _ = w.Write(p)
 	}
+	if a.flush {
+		if fl, ok := w.(http.Flusher); ok {
+			fl.Flush()
+		}
+	}
 	if a.hijack {
 		if h, ok := w.(http.Hijacker); ok {
 			conn, _, err := h.Hijack()
@@ -271,6 +288,8 @@ func (s *scen) inner(w http.ResponseWriter, r *http.Request) {
 	}
 	ex.views = append(ex.views, view+"|rd="+showBytes(got)+"|tf="+strconv.Itoa(s.tmpCount()))
 }
+
+var tokenSeq int
 
 type hideReader struct{ r io.Reader }
 
@@ -285,7 +304,8 @@ func (s *scen) doReq(f []string) string {
 	if framing != "cl" && framing != "ch" {
 		return "bad-op"
 	}
-	ex := &exchange{done: make(chan struct{})}
+	tokenSeq++
+	ex := &exchange{done: make(chan struct{}), token: fmt.Sprintf("%d-%d", os.Getpid(), tokenSeq)}
 	for _, t := range f[6:] {
 		if strings.HasPrefix(t, "a=") {
 			ex.atts = append(ex.atts, parseAttempt(t[2:]))
@@ -304,6 +324,7 @@ func (s *scen) doReq(f []string) string {
 		req.ContentLength = int64(n)
 	}
 	req.Header.Set("User-Agent", "hx")
+	req.Header.Set("Hx-Token", ex.token)
 	if h, ok := hx.KV(f[6:], "h"); ok && h != "-" {
 		for _, kv := range strings.Split(h, ";") {
 			p := strings.Split(kv, ":")
@@ -313,7 +334,9 @@ func (s *scen) doReq(f []string) string {
 			req.Header.Add(p[0], p[1])
 		}
 	}
+	s.mu.Lock()
 	s.cur = ex
+	s.mu.Unlock()
 	client := &http.Client{
 		Transport:     &http.Transport{DisableKeepAlives: true, DisableCompression: true},
 		Timeout:       4 * time.Second,
